@@ -9,8 +9,12 @@ import (
 	"encoding/json"
 	"fmt"
 	"io"
+	"log"
 	"os"
 	"os/exec"
+	"runtime"
+	"runtime/debug"
+	"strconv"
 	"strings"
 	"sync"
 	"time"
@@ -32,15 +36,156 @@ import (
 // on the TransactionLog / TransactionPriorityLog, and all L2-cache traffic (locks, cached store info).
 
 type rec struct {
+	mu      sync.Mutex
 	w       []string // write kinds since the last take()
 	touched bool     // any call at all (reads included) reached a data backend
+
+	pl    *plan    // the failure armed for the call in progress (nil: none)
+	n     int      // calls of pl.name seen during the call in progress
+	fired []string // where (stack class) the armed failure took effect during the call in progress
 }
 
-func (r *rec) hit(k string) { r.w = append(r.w, k); r.touched = true }
+func (r *rec) hit(k string) {
+	r.mu.Lock()
+	r.w = append(r.w, k)
+	r.touched = true
+	r.mu.Unlock()
+}
+func (r *rec) touch() { r.mu.Lock(); r.touched = true; r.mu.Unlock() }
 func (r *rec) take() []string {
+	r.mu.Lock()
+	defer r.mu.Unlock()
 	x := r.w
 	r.w = nil
 	return x
+}
+
+// ---- injected backend failures ---------------------------------------------------------------------------
+//
+// A plan fails ONE backend call under ONE call of the sequence: the k-th call of the named backend method made while
+// that call runs, either before it is performed (`name#k`: no effect, error) or after (`+name#k`: performed, then
+// error). Where the failure took effect is read off the call stack (which piece of internal work was running), not
+// off what the transaction answers, so that the model's input is independent of the implementation's output.
+
+type plan struct {
+	name  string
+	k     int
+	after bool
+}
+
+var errInjected = fmt.Errorf("verif: injected backend failure")
+
+func (r *rec) arm(p *plan) { r.mu.Lock(); r.pl, r.n, r.fired = p, 0, nil; r.mu.Unlock() }
+func (r *rec) disarm() []string {
+	r.mu.Lock()
+	defer r.mu.Unlock()
+	f := r.fired
+	r.pl, r.fired = nil, nil
+	return f
+}
+
+// inj is called by every decorated backend method. It says whether this very call is to fail before / after it is performed.
+func (r *rec) inj(name string) (before, after bool) {
+	r.mu.Lock()
+	defer r.mu.Unlock()
+	if r.pl == nil {
+		return
+	}
+	outage := strings.HasSuffix(r.pl.name, ".*") // `blob.*#k`: the backend is down from its k-th call on (every later call to it fails too)
+	if outage {
+		if !strings.HasPrefix(name, r.pl.name[:len(r.pl.name)-1]) {
+			return
+		}
+	} else if r.pl.name != name {
+		return
+	}
+	r.n++
+	if r.n < r.pl.k || (!outage && r.n != r.pl.k) {
+		return
+	}
+	r.fired = append(r.fired, classify()+"@"+name)
+	if os.Getenv("VERIF_C14_STACK") != "" {
+		debug.PrintStack()
+	}
+	return !r.pl.after, r.pl.after
+}
+
+func hasFn(name, fn string) bool {
+	i := strings.Index(name, fn)
+	if i < 0 {
+		return false
+	}
+	rest := name[i+len(fn):]
+	return rest == "" || rest[0] == '.' // the function itself or a closure inside it
+}
+
+// classify names the piece of internal work on whose behalf the failing backend call was made.
+func classify() string {
+	pcs := make([]uintptr, 96)
+	n := runtime.Callers(3, pcs)
+	fr := runtime.CallersFrames(pcs[:n])
+	var p1, p2, cleanup, undo, closeFn, rollbackFn, phase2Fn, open, deleg bool
+	for {
+		f, more := fr.Next()
+		fn := f.Function
+		switch {
+		case hasFn(fn, "common.(*Transaction).phase1Commit"), hasFn(fn, "common.(*Transaction).commitForReaderTransaction"):
+			p1 = true
+		case strings.HasSuffix(fn, "common.(*Transaction).phase2Commit"):
+			p2 = true
+		case hasFn(fn, "common.(*Transaction).phase2Commit"): // a closure: the fire-and-forget tasks of phase 2 (errors logged and dropped)
+			cleanup = true
+		case hasFn(fn, "common.(*Transaction).cleanup"):
+			cleanup = true
+		case hasFn(fn, "common.(*Transaction).rollback"):
+			undo = true
+		case hasFn(fn, "common.(*Transaction).Close"):
+			closeFn = true
+		case hasFn(fn, "common.(*Transaction).Rollback"):
+			rollbackFn = true
+		case hasFn(fn, "common.(*Transaction).Phase2Commit"):
+			phase2Fn = true
+		case strings.Contains(fn, "sop/common.NewBtree["), strings.Contains(fn, "sop/common.OpenBtree["):
+			open = true
+		case strings.Contains(fn, "sop/btree.(*btreeWithTransaction["):
+			deleg = true
+		}
+		if !more {
+			break
+		}
+	}
+	switch {
+	case p1: // includes the partial rollback inside the commit loop: its error is phase1Commit's error
+		return "p1"
+	case cleanup: // after the registry flip: errors are logged, not returned
+		return "quiet"
+	case p2:
+		return "p2"
+	case undo:
+		return "undo"
+	case closeFn && (rollbackFn || phase2Fn): // `t.Close()` / `defer t.Close()`: result dropped
+		return "quiet"
+	case closeFn:
+		return "close"
+	case open:
+		return "open"
+	case deleg:
+		return "deleg"
+	}
+	return "unknown"
+}
+
+// pass runs one decorated call with the armed failure applied.
+func pass(r *rec, name string, f func() error) error {
+	b, a := r.inj(name)
+	if b {
+		return errInjected
+	}
+	err := f()
+	if a && err == nil {
+		return errInjected
+	}
+	return err
 }
 
 type srDec struct {
@@ -49,34 +194,40 @@ type srDec struct {
 }
 
 func (d srDec) Get(ctx context.Context, n ...string) ([]sop.StoreInfo, error) {
-	d.r.touched = true
-	return d.StoreRepository.Get(ctx, n...)
+	d.r.touch()
+	var out []sop.StoreInfo
+	err := pass(d.r, "sr.get", func() (e error) { out, e = d.StoreRepository.Get(ctx, n...); return })
+	return out, err
 }
 func (d srDec) GetWithTTL(ctx context.Context, a bool, t time.Duration, n ...string) ([]sop.StoreInfo, error) {
-	d.r.touched = true
-	return d.StoreRepository.GetWithTTL(ctx, a, t, n...)
+	d.r.touch()
+	var out []sop.StoreInfo
+	err := pass(d.r, "sr.get", func() (e error) { out, e = d.StoreRepository.GetWithTTL(ctx, a, t, n...); return })
+	return out, err
 }
 func (d srDec) GetAll(ctx context.Context) ([]string, error) {
-	d.r.touched = true
+	d.r.touch()
 	return d.StoreRepository.GetAll(ctx)
 }
 func (d srDec) Add(ctx context.Context, s ...sop.StoreInfo) error {
 	if len(s) > 0 {
 		d.r.hit("sr.add")
 	}
-	return d.StoreRepository.Add(ctx, s...)
+	return pass(d.r, "sr.add", func() error { return d.StoreRepository.Add(ctx, s...) })
 }
 func (d srDec) Update(ctx context.Context, s []sop.StoreInfo) ([]sop.StoreInfo, error) {
 	if len(s) > 0 {
 		d.r.hit("sr.upd")
 	}
-	return d.StoreRepository.Update(ctx, s)
+	var out []sop.StoreInfo
+	err := pass(d.r, "sr.upd", func() (e error) { out, e = d.StoreRepository.Update(ctx, s); return })
+	return out, err
 }
 func (d srDec) Remove(ctx context.Context, n ...string) error {
 	if len(n) > 0 {
 		d.r.hit("sr.rem")
 	}
-	return d.StoreRepository.Remove(ctx, n...)
+	return pass(d.r, "sr.rem", func() error { return d.StoreRepository.Remove(ctx, n...) })
 }
 
 func nH(p []sop.RegistryPayload[sop.Handle]) (n int) {
@@ -98,38 +249,42 @@ type regDec struct {
 }
 
 func (d regDec) Get(ctx context.Context, p []sop.RegistryPayload[sop.UUID]) ([]sop.RegistryPayload[sop.Handle], error) {
-	d.r.touched = true
-	return d.Registry.Get(ctx, p)
+	d.r.touch()
+	var out []sop.RegistryPayload[sop.Handle]
+	err := pass(d.r, "reg.get", func() (e error) { out, e = d.Registry.Get(ctx, p); return })
+	return out, err
 }
 func (d regDec) Add(ctx context.Context, p []sop.RegistryPayload[sop.Handle]) error {
 	if nH(p) > 0 {
 		d.r.hit("reg.add")
 	}
-	return d.Registry.Add(ctx, p)
+	return pass(d.r, "reg.add", func() error { return d.Registry.Add(ctx, p) })
 }
 func (d regDec) Update(ctx context.Context, p []sop.RegistryPayload[sop.Handle]) error {
 	if nH(p) > 0 {
 		d.r.hit("reg.upd")
 	}
-	return d.Registry.Update(ctx, p)
+	return pass(d.r, "reg.upd", func() error { return d.Registry.Update(ctx, p) })
 }
 func (d regDec) UpdateNoLocks(ctx context.Context, a bool, p []sop.RegistryPayload[sop.Handle]) error {
 	if nH(p) > 0 {
 		d.r.hit("reg.updnl")
 	}
-	return d.Registry.UpdateNoLocks(ctx, a, p)
+	return pass(d.r, "reg.updnl", func() error { return d.Registry.UpdateNoLocks(ctx, a, p) })
 }
 func (d regDec) Remove(ctx context.Context, p []sop.RegistryPayload[sop.UUID]) error {
 	if nU(p) > 0 {
 		d.r.hit("reg.rem")
 	}
-	return d.Registry.Remove(ctx, p)
+	return pass(d.r, "reg.rem", func() error { return d.Registry.Remove(ctx, p) })
 }
 func (d regDec) Close() error {
-	if c, ok := d.Registry.(io.Closer); ok {
-		return c.Close()
-	}
-	return nil
+	return pass(d.r, "reg.close", func() error {
+		if c, ok := d.Registry.(io.Closer); ok {
+			return c.Close()
+		}
+		return nil
+	})
 }
 
 type blobDec struct {
@@ -144,20 +299,22 @@ func nKV(p []sop.BlobsPayload[sop.KeyValuePair[sop.UUID, []byte]]) (n int) {
 	return
 }
 func (d blobDec) GetOne(ctx context.Context, t string, id sop.UUID) ([]byte, error) {
-	d.r.touched = true
-	return d.BlobStore.GetOne(ctx, t, id)
+	d.r.touch()
+	var out []byte
+	err := pass(d.r, "blob.get", func() (e error) { out, e = d.BlobStore.GetOne(ctx, t, id); return })
+	return out, err
 }
 func (d blobDec) Add(ctx context.Context, p []sop.BlobsPayload[sop.KeyValuePair[sop.UUID, []byte]]) error {
 	if nKV(p) > 0 {
 		d.r.hit("blob.add")
 	}
-	return d.BlobStore.Add(ctx, p)
+	return pass(d.r, "blob.add", func() error { return d.BlobStore.Add(ctx, p) })
 }
 func (d blobDec) Update(ctx context.Context, p []sop.BlobsPayload[sop.KeyValuePair[sop.UUID, []byte]]) error {
 	if nKV(p) > 0 {
 		d.r.hit("blob.upd")
 	}
-	return d.BlobStore.Update(ctx, p)
+	return pass(d.r, "blob.upd", func() error { return d.BlobStore.Update(ctx, p) })
 }
 func (d blobDec) Remove(ctx context.Context, p []sop.BlobsPayload[sop.UUID]) error {
 	n := 0
@@ -167,7 +324,34 @@ func (d blobDec) Remove(ctx context.Context, p []sop.BlobsPayload[sop.UUID]) err
 	if n > 0 {
 		d.r.hit("blob.rem")
 	}
-	return d.BlobStore.Remove(ctx, p)
+	return pass(d.r, "blob.rem", func() error { return d.BlobStore.Remove(ctx, p) })
+}
+
+// transaction log / priority log: not data backends (never counted as writes), decorated for failures only
+type tlDec struct {
+	sop.TransactionLog
+	pl sop.TransactionPriorityLog
+	r  *rec
+}
+
+func (d tlDec) PriorityLog() sop.TransactionPriorityLog { return d.pl }
+func (d tlDec) Add(ctx context.Context, tid sop.UUID, fn int, payload []byte) error {
+	return pass(d.r, "tlog.add", func() error { return d.TransactionLog.Add(ctx, tid, fn, payload) })
+}
+func (d tlDec) Remove(ctx context.Context, tid sop.UUID) error {
+	return pass(d.r, "tlog.rem", func() error { return d.TransactionLog.Remove(ctx, tid) })
+}
+
+type plDec struct {
+	sop.TransactionPriorityLog
+	r *rec
+}
+
+func (d plDec) Add(ctx context.Context, tid sop.UUID, payload []byte) error {
+	return pass(d.r, "plog.add", func() error { return d.TransactionPriorityLog.Add(ctx, tid, payload) })
+}
+func (d plDec) Remove(ctx context.Context, tid sop.UUID) error {
+	return pass(d.r, "plog.rem", func() error { return d.TransactionPriorityLog.Remove(ctx, tid) })
 }
 
 // ---- a real transaction on a scratch folder ---------------------------------------------------------------
@@ -185,8 +369,13 @@ type txn struct {
 	b3 btree.BtreeInterface[int, string]
 }
 
-// newTxn mirrors infs.NewTwoPhaseCommitTransaction (no replication) with decorators around the three data backends.
+// newTxn mirrors infs.NewTwoPhaseCommitTransaction (no replication) with decorators around the three data backends
+// (counting + failures) and around the transaction log / priority log (failures only).
 func newTxn(ctx context.Context, dir string, mode sop.TransactionMode) (*txn, error) {
+	return newTxnOn(ctx, dir, mode, l2)
+}
+
+func newTxnOn(ctx context.Context, dir string, mode sop.TransactionMode, l2 sop.L2Cache) (*txn, error) {
 	rt, err := fs.NewReplicationTracker(ctx, []string{dir}, false, l2)
 	if err != nil {
 		return nil, err
@@ -198,7 +387,8 @@ func newTxn(ctx context.Context, dir string, mode sop.TransactionMode) (*txn, er
 	r := &rec{}
 	tl := fs.NewTransactionLog(l2, rt)
 	reg := fs.NewRegistry(mode == sop.ForWriting, fs.MinimumModValue, rt, l2)
-	tp, err := common.NewTwoPhaseCommitTransaction(mode, -1, blobDec{fs.NewBlobStore(dir, nil, nil), r}, srDec{sr, r}, regDec{reg, r}, l2, tl)
+	tld := tlDec{TransactionLog: tl, pl: plDec{tl.PriorityLog(), r}, r: r}
+	tp, err := common.NewTwoPhaseCommitTransaction(mode, -1, blobDec{fs.NewBlobStore(dir, nil, nil), r}, srDec{sr, r}, regDec{reg, r}, l2, tld)
 	if err != nil {
 		return nil, err
 	}
@@ -255,6 +445,12 @@ var alphabet = []string{"begin", "phase1", "phase2", "commit", "rollback", "clos
 
 // do runs one op on the real objects and returns the result class.
 func (x *txn) do(ctx context.Context, dir, op string) (res string, detail string) {
+	// a panic on the calling goroutine is an outcome of the call (the harness plays an application that recovers)
+	defer func() {
+		if p := recover(); p != nil {
+			res, detail = "panic", fmt.Sprint(p)+" @ "+panicSite()
+		}
+	}()
 	var err error
 	switch op {
 	case "begin":
@@ -314,6 +510,22 @@ func (x *txn) do(ctx context.Context, dir, op string) (res string, detail string
 	return "ok", ""
 }
 
+// panicSite names the innermost repository function on the stack of a recovered panic
+func panicSite() string {
+	pcs := make([]uintptr, 64)
+	n := runtime.Callers(3, pcs)
+	fr := runtime.CallersFrames(pcs[:n])
+	for {
+		f, more := fr.Next()
+		if i := strings.Index(f.Function, "sharedcode/sop"); i >= 0 {
+			return f.Function[i+len("sharedcode/"):]
+		}
+		if !more {
+			return "?"
+		}
+	}
+}
+
 // setup creates the initial condition with a separate writer transaction (not part of the sequence).
 func setup(ctx context.Context, dir, init string) error {
 	if init == "absent" {
@@ -338,9 +550,15 @@ func setup(ctx context.Context, dir, init string) error {
 	return x.t.Commit(ctx)
 }
 
-// observe opens a fresh writer transaction on fresh repository objects and reports (exists, count, has key 1).
+// observe is what ANOTHER, freshly started process sees: cold L1 singletons, a fresh L2 cache, fresh repository objects
+// on the same folder, a separate transaction. It reports (listed, count, has key 1, its value). This process's caches
+// are put back afterwards, so the transaction under test is not disturbed and a snapshot can be taken mid-sequence.
 func observe(ctx context.Context, dir string) (string, error) {
-	x, err := newTxn(ctx, dir, sop.ForWriting)
+	old := cache.VerifSwapGlobalL1(nil)
+	defer cache.VerifSwapGlobalL1(old)
+	cold := cache.NewL2InMemoryCache()
+	cache.GetGlobalL1Cache(cold)
+	x, err := newTxnOn(ctx, dir, sop.ForWriting, cold)
 	if err != nil {
 		return "", err
 	}
@@ -367,9 +585,17 @@ func observe(ctx context.Context, dir string) (string, error) {
 	}
 	ok, err := b.Find(ctx, 1, false)
 	if err != nil {
-		return "", err
+		return "listed-but-find-fails:" + errClass(err), nil
 	}
-	return fmt.Sprintf("exists count=%d has1=%v", b.Count(), ok), nil
+	val := "-"
+	if ok {
+		v, err := b.GetCurrentValue(ctx)
+		if err != nil {
+			return "listed-but-get-fails:" + errClass(err), nil
+		}
+		val = v
+	}
+	return fmt.Sprintf("exists count=%d has1=%v val=%s", b.Count(), ok, val), nil
 }
 
 func modeOf(s string) sop.TransactionMode {
@@ -425,6 +651,72 @@ func initSeen(init string) string {
 	return "absent"
 }
 
+// initFull is the cold reader's full view of the initial condition
+func initFull(init string) string {
+	switch init {
+	case "empty":
+		return "exists count=0 has1=false val=-"
+	case "one":
+		return "exists count=1 has1=true val=v"
+	}
+	return "absent"
+}
+
+// parseTok splits `op` / `op!name#k` / `op!+name#k`
+func parseTok(tok string) (op string, pl *plan) {
+	i := strings.IndexByte(tok, '!')
+	if i < 0 {
+		return tok, nil
+	}
+	op, f := tok[:i], tok[i+1:]
+	pl = &plan{k: 1}
+	if strings.HasPrefix(f, "+") {
+		pl.after = true
+		f = f[1:]
+	}
+	if j := strings.IndexByte(f, '#'); j >= 0 {
+		pl.k, _ = strconv.Atoi(f[j+1:])
+		f = f[:j]
+	}
+	pl.name = f
+	return op, pl
+}
+
+// fxOf maps where the failure took effect (stack class) to the model's failure pattern for this call:
+// work / work2 / undo / quiet. `unknown` (a goroutine without the caller's stack: only the fire-and-forget tasks of
+// phase 2, whose errors are logged and dropped) counts as quiet.
+func fxOf(op string, fired []string) []string {
+	var out []string
+	seen := map[string]bool{}
+	add := func(x string) {
+		if !seen[x] {
+			seen[x] = true
+			out = append(out, x)
+		}
+	}
+	for _, cn := range fired {
+		c, name, _ := strings.Cut(cn, "@")
+		if c == "undo" && strings.HasPrefix(name, "tlog.") {
+			c = "quiet" // `t.logger.removeLogs(ctx)` inside the undo: result dropped
+		}
+		switch c {
+		case "p1", "open", "deleg", "close":
+			add("work")
+		case "p2":
+			if op == "commit" {
+				add("work2")
+			} else {
+				add("work")
+			}
+		case "undo":
+			add("undo")
+		default:
+			add("quiet")
+		}
+	}
+	return out
+}
+
 // runCase runs one call sequence on a fresh folder and evaluates the direct oracle on what the real code answered.
 func runCase(ctx context.Context, mode, init string, ops []string) (res caseResult) {
 	fail := func(sig, what, detail string) { res.Fails = append(res.Fails, failure{sig, what, detail}) }
@@ -450,10 +742,30 @@ func runCase(ctx context.Context, mode, init string, ops []string) (res caseResu
 		createdByNewBtree                     bool // a newbtree of this case issued StoreRepository.Add
 		p1WroteOK, secondP1AfterWrites        bool
 		anyBegunActivity                      bool
+
+		// failures
+		faultFired   bool // some injected failure took effect in this case (from then on: what is on disk is not diffed)
+		faultPlanned bool
+		anyFired     bool // including a failing direct Close (which blurs nothing)
+
+		// the spec-level end of the transaction: the first Rollback or Commit (or Phase2Commit after a successful Phase1Commit)
+		// CALLED after a successful Begin, whatever it returned
+		ended            bool
+		p1OK             bool   // a Phase1Commit returned ok: the next Phase2Commit call completes the commit (two-phase API)
+		ender            string // "rollback" | "commit" | "phase2"
+		enderUndoFailed  bool
+		faultBeforeEnder bool
+		p1BeforeEnder    bool
+		endSnap          string
+		haveEndSnap      bool
+		opsAfterEnd      int
 	)
-	for _, op := range ops {
+	for i, tok := range ops {
+		op, pl := parseTok(tok)
 		begunBefore := x.tp.HasBegun()
-		r, _ := x.do(ctx, dir, op)
+		x.r.arm(pl)
+		r, rDetail := x.do(ctx, dir, op)
+		fired := x.r.disarm()
 		w := x.r.take()
 		pd, com, ls := common.VerifC14State(x.tp)
 		okRes := strings.HasPrefix(r, "ok")
@@ -469,15 +781,81 @@ func runCase(ctx context.Context, mode, init string, ops []string) (res caseResu
 		if writer && pd == 1 && ls >= 2 && isMutation(op) && r == "ok true" {
 			dirty = true
 		}
+		fx := fxOf(op, fired)
+		// a failure took effect (even one whose error is dropped changes what the work around it does): this call's write
+		// calls are not predicted. Except under a direct Close: registry file handles only, nothing becomes unpredicted.
+		blurring := false
+		for _, cn := range fired {
+			if !strings.HasPrefix(cn, "close@") {
+				blurring = true
+			}
+		}
+		masked := blurring
+		if pl != nil {
+			faultPlanned = true
+			hit("fault:" + pl.name)
+			if len(fired) == 0 {
+				hit("fault_not_reached")
+			}
+			for _, cn := range fired {
+				c, name, _ := strings.Cut(cn, "@")
+				hit("fired:" + c + "@" + op)
+				if c == "unknown" {
+					hit("fired_unclassified:" + name + "@" + op)
+				}
+			}
+			if strings.HasSuffix(pl.name, ".*") && len(fired) > 1 {
+				hit("outage_hit_several_calls@" + op)
+			}
+			if len(fx) > 1 {
+				hit("fx_combo:" + strings.Join(fx, "+") + "@" + op)
+			}
+			for _, c := range fx {
+				hit("fx:" + c + "@" + op + "->" + strings.ReplaceAll(r, " ", "_"))
+			}
+		}
+		wasFaultFired := faultFired
+		if len(fired) > 0 {
+			anyFired = true
+		}
+		if blurring {
+			faultFired = true
+		}
 		ws := "-"
 		if len(w) > 0 {
 			ws = strings.Join(w, ",")
 		}
+		wsShown := ws
+		if masked {
+			wsShown = "*"
+		}
 		d01 := map[bool]string{false: "0", true: "1"}
-		res.Ops = append(res.Ops, op)
-		res.Outs = append(res.Outs, fmt.Sprintf("%s pd=%d c=%s dirty=%s w=%s", r, pd, d01[com], d01[dirty], ws))
+		line := tok
+		if pl != nil {
+			fxs := "-"
+			if len(fx) > 0 {
+				fxs = strings.Join(fx, ",")
+			}
+			line = tok + " " + fxs
+		}
+		res.Ops = append(res.Ops, line)
+		res.Outs = append(res.Outs, fmt.Sprintf("%s pd=%d c=%s dirty=%s w=%s", r, pd, d01[com], d01[dirty], wsShown))
 
 		// ---- direct oracle on this call ----
+		if r == "panic" {
+			hit("panic:" + op)
+			p2 := false
+			for _, cn := range fired {
+				if strings.HasPrefix(cn, "p2@") {
+					p2 = true
+				}
+			}
+			if writer && (op == "commit" || op == "phase2") && x.b3 == nil && p2 && strings.Contains(rDetail, "index out of range") && strings.Contains(rDetail, "common.(*Transaction).rollback") {
+				fail("C14/phase2-failure-without-store-panics", "a writer transaction with no store attached panics (index out of range in Transaction.rollback: btreesBackend[0]) instead of returning an error when the log(finalizeCommit) call of phase 2 fails", tok+": "+rDetail)
+			} else {
+				fail("C14/call-panics", "a call panicked instead of returning", tok+": "+rDetail+" in: "+strings.Join(ops[:i+1], " "))
+			}
+		}
 		if isStoreLevel(op) && okRes && !begunBefore {
 			fail("C14/op-ok-without-begun", "a store-level call returned ok although the transaction had not begun (or was finished)", op)
 		}
@@ -487,12 +865,19 @@ func runCase(ctx context.Context, mode, init string, ops []string) (res caseResu
 				createdByNewBtree = true
 				hit("readonly_newbtree_creates_store")
 				fail("C14/newbtree-creates-store-in-readonly-txn", "NewBtree in a non-writer transaction issued StoreRepository.Add (mode "+mode+")", ws)
+			case op == "newbtree" && len(fired) > 0 && createsThenCleans(w):
+				// the same defect with a failing StoreRepository.Add: NewBtree's own cleanup removes the store again
+				hit("readonly_newbtree_creates_store_failing_add")
+				fail("C14/newbtree-creates-store-in-readonly-txn", "NewBtree in a non-writer transaction issued StoreRepository.Add (mode "+mode+")", ws)
 			case createdByNewBtree && len(w) == 1 && w[0] == "sr.rem":
 				hit("readonly_rollback_removes_created_store")
 				fail("C14/readonly-txn-removes-store-it-created", "a non-writer transaction issued StoreRepository.Remove for the store its NewBtree had created (call "+op+")", ws)
 			default:
 				fail("C14/write-in-readonly-txn", "a non-writer transaction issued a data write from "+op, ws)
 			}
+		}
+		if writer && op == "newbtree" && len(w) > 0 && w[0] == "sr.add" {
+			createdByNewBtree = true
 		}
 		if !writer && isMutation(op) && okRes {
 			fail("C14/mutation-accepted-in-readonly-txn", "add/update/remove returned ok in a non-writer transaction (mode "+mode+")", op+" -> "+r)
@@ -514,11 +899,52 @@ func runCase(ctx context.Context, mode, init string, ops []string) (res caseResu
 				fail("C14/finished-not-final", "phaseDone left 2", fmt.Sprint(pd))
 			}
 		}
+		// ---- the transaction has ended once Rollback or Commit was CALLED on it (successfully or not) ----
+		if ended {
+			opsAfterEnd++
+			hit("after_end:" + op)
+			seq := strings.Join(ops[:i+1], " ")
+			if len(w) > 0 {
+				fail("C14/write-after-end", "a data write was issued by "+op+" after "+ender+" had been called on the transaction", ws+" in: "+seq)
+			}
+			if okRes && op != "rollback" && op != "close" {
+				fail("C14/call-accepted-after-end", op+" returned "+r+" after "+ender+" had been called on the transaction", seq)
+			}
+			if x.tp.HasBegun() {
+				fail("C14/begun-after-end", "HasBegun() is true after "+ender+" had been called on the transaction", seq)
+			}
+		} else if beganOK && (op == "rollback" || op == "commit" || (op == "phase2" && p1OK)) {
+			ended, ender = true, op
+			faultBeforeEnder, p1BeforeEnder = wasFaultFired, p1WroteOK
+			for _, c := range fx {
+				if c == "undo" {
+					enderUndoFailed = true
+				}
+			}
+			hit("ender:" + op + "->" + strings.ReplaceAll(r, " ", "_"))
+			if !okRes {
+				hit("ender_failed:" + op)
+			}
+			if x.tp.HasBegun() {
+				fail("C14/begun-after-end", "HasBegun() is still true right after "+op+" returned "+r, strings.Join(ops[:i+1], " "))
+			}
+			if i < len(ops)-1 && x.r.touched {
+				snap, err := observe(ctx, dir)
+				if err != nil {
+					res.Err = "observe: " + err.Error()
+					return
+				}
+				endSnap, haveEndSnap = snap, true
+			}
+		}
 		if op == "begin" && okRes {
 			if beganOK {
 				fail("C14/begin-twice", "Begin succeeded twice on one transaction", "")
 			}
 			beganOK = true
+		}
+		if op == "phase1" && okRes {
+			p1OK = true
 		}
 		if writer && op == "phase1" {
 			if p1WroteOK {
@@ -546,25 +972,44 @@ func runCase(ctx context.Context, mode, init string, ops []string) (res caseResu
 		}
 	}
 	res.Nontrivial = beganOK && anyBegunActivity
-	// ---- end-of-case observation by a separate later transaction ----
+	if faultPlanned {
+		if faultFired || anyFired {
+			hit("case_with_failure")
+		} else {
+			hit("case_failure_not_reached")
+		}
+	}
+	if opsAfterEnd > 0 {
+		hit("case_with_calls_after_end")
+		if faultFired {
+			hit("case_with_failure_and_calls_after_end")
+		}
+	}
+	// ---- end-of-case observation by a separate cold reader ----
 	res.Ops = append(res.Ops, "observe")
 	before := initSeen(init)
 	if dirty {
 		res.Outs = append(res.Outs, "skipped")
 		return
 	}
-	after := before
+	after, afterFull := before, initFull(init)
 	if x.r.touched {
 		obs, err := observe(ctx, dir)
 		if err != nil {
 			res.Err = "observe: " + err.Error()
 			return
 		}
+		afterFull = obs
 		f := strings.Fields(obs)
-		if len(f) == 3 { // exists count=N has1=B
+		if len(f) == 4 { // exists count=N has1=B val=V
 			after = f[0] + " " + f[1]
 			if (f[1] != "count=0") != (f[2] == "has1=true") {
-				fail("C14/observe-inconsistent", "store count and content disagree for the later transaction", obs)
+				// with an injected failure count and content may legitimately part (e.g. the count update of a rollback refused)
+				if faultFired {
+					hit("observe_count_content_disagree_after_failure")
+				} else {
+					fail("C14/observe-inconsistent", "store count and content disagree for the later transaction", obs)
+				}
 			}
 		} else {
 			after = obs
@@ -572,7 +1017,38 @@ func runCase(ctx context.Context, mode, init string, ops []string) (res caseResu
 	} else {
 		hit("untouched")
 	}
-	res.Outs = append(res.Outs, after)
+	if faultFired {
+		res.Outs = append(res.Outs, "*") // what a failed piece of work leaves on disk is not the lifecycle model's subject
+	} else {
+		res.Outs = append(res.Outs, after)
+	}
+	// (A) nothing is persisted after the end of the transaction
+	if haveEndSnap && afterFull != endSnap {
+		fail("C14/persisted-after-end", "what a cold reader sees changed AFTER "+ender+" had been called on the transaction (calls made on the ended transaction were persisted)",
+			"right after "+ender+": "+endSnap+" ; at the end: "+afterFull+" ; sequence: "+strings.Join(ops, " "))
+	}
+	// (B) nothing written before (or after) a Rollback call is persisted
+	if ended && ender == "rollback" {
+		snap := afterFull
+		if haveEndSnap {
+			snap = endSnap
+		}
+		b0 := initFull(init)
+		switch {
+		case snap == b0:
+			hit("rollback_left_nothing")
+		case faultBeforeEnder:
+			hit("rollback_after_earlier_failure_not_judged") // what an earlier failed call left behind: commit protocol's subject
+		case enderUndoFailed && b0 == "absent" && snap == "exists count=0 has1=false val=-" && createdByNewBtree:
+			hit("rollback_undo_failed_created_store_left") // the removal of the created store was refused by the backend
+		case enderUndoFailed && p1BeforeEnder:
+			hit("rollback_undo_failed_after_phase1_not_judged") // phase-1 work whose undo the backend refused
+		case secondP1AfterWrites:
+			// reported below under its own signature
+		default:
+			fail("C14/rolled-back-change-persisted", "a cold reader sees a change although the transaction's first ending call was Rollback", b0+" -> "+snap+" ; sequence: "+strings.Join(ops, " "))
+		}
+	}
 	inflight := x.tp.HasBegun()
 	switch {
 	case after == before:
@@ -585,6 +1061,8 @@ func runCase(ctx context.Context, mode, init string, ops []string) (res caseResu
 		hit("writer_commit_changed_store")
 	case inflight:
 		hit("inflight_end_changed_store") // unfinished writer (phase 1 effects / created store): C03's subject, not judged here
+	case faultFired:
+		hit("writer_failure_left_change") // what a failed commit/undo leaves behind is the commit protocol's subject (C07), judged above only by (A) and (B)
 	case secondP1AfterWrites:
 		hit("second_phase1_strands_writes")
 		fail("C14/second-phase1-strands-phase1-writes", "a second Phase1Commit after one that already wrote failed, and its rollback left the first run's writes: an uncommitted, finished transaction changed the store", before+" -> "+after)
@@ -592,6 +1070,19 @@ func runCase(ctx context.Context, mode, init string, ops []string) (res caseResu
 		fail("C14/uncommitted-change-visible", "a finished transaction that never committed changed what a later transaction sees", before+" -> "+after)
 	}
 	return
+}
+
+// createsThenCleans: StoreRepository.Add followed only by StoreRepository.Remove calls
+func createsThenCleans(w []string) bool {
+	if len(w) == 0 || w[0] != "sr.add" {
+		return false
+	}
+	for _, k := range w[1:] {
+		if k != "sr.rem" {
+			return false
+		}
+	}
+	return true
 }
 
 // ---- worker processes (a panic inside repo goroutines would kill the process: cases run in children) --------
@@ -700,6 +1191,7 @@ var inits = []string{"absent", "empty", "one"}
 func canReachStore(ops []string) bool {
 	begun := false
 	for _, o := range ops {
+		o, _ = parseTok(o)
 		if o == "begin" {
 			begun = true
 		} else if begun && (o == "newbtree" || o == "openbtree") {
@@ -737,6 +1229,182 @@ func addSeq(cases *[]spec, seen map[string]bool, ops []string) {
 	}
 }
 
+// ---- sequences with failing calls ---------------------------------------------------------------------------
+
+// failing calls: for each call of the alphabet, the backend calls worth failing under it (name, ordinals), picked
+// from what the call issues on the real code (a plan that is never reached leaves a plain case: histogram key
+// fault_not_reached).
+type fcall struct {
+	op    string
+	name  string
+	ks    []int
+	after bool // also the "performed, then error" flavour
+}
+
+var failTable = []fcall{
+	{"rollback", "sr.rem", []int{1}, true}, {"rollback", "sr.upd", []int{1}, true}, {"rollback", "blob.rem", []int{1}, true},
+	{"rollback", "reg.get", []int{1}, false}, {"rollback", "reg.rem", []int{1}, true}, {"rollback", "reg.updnl", []int{1}, true},
+	{"rollback", "reg.upd", []int{1}, false}, {"rollback", "plog.rem", []int{1}, true}, {"rollback", "tlog.rem", []int{1}, false},
+	{"rollback", "reg.close", []int{1}, false},
+	{"commit", "tlog.add", []int{1, 2, 3, 4, 5, 6, 7, 8, 9, 10, 11, 12, 13}, false}, {"commit", "sr.upd", []int{1}, true}, {"commit", "sr.get", []int{1}, false},
+	{"commit", "reg.get", []int{1, 2}, false}, {"commit", "reg.add", []int{1}, true}, {"commit", "reg.updnl", []int{1, 2}, true},
+	{"commit", "reg.upd", []int{1}, false}, {"commit", "reg.rem", []int{1}, false}, {"commit", "blob.add", []int{1, 2}, true},
+	{"commit", "blob.rem", []int{1}, false}, {"commit", "plog.add", []int{1}, true}, {"commit", "plog.rem", []int{1}, false},
+	{"commit", "tlog.rem", []int{1}, false}, {"commit", "reg.close", []int{1}, false}, {"commit", "sr.rem", []int{1}, false},
+	{"phase1", "tlog.add", []int{1, 2, 3, 5, 8}, false}, {"phase1", "reg.get", []int{1}, false}, {"phase1", "blob.add", []int{1}, true},
+	{"phase1", "reg.updnl", []int{1}, false}, {"phase1", "reg.add", []int{1}, false}, {"phase1", "sr.upd", []int{1}, true}, {"phase1", "plog.add", []int{1}, false},
+	{"phase2", "tlog.add", []int{1, 2, 3}, false}, {"phase2", "reg.updnl", []int{1}, true}, {"phase2", "blob.rem", []int{1}, false}, {"phase2", "plog.rem", []int{1}, false},
+	{"newbtree", "sr.get", []int{1}, false}, {"newbtree", "tlog.add", []int{1}, false}, {"newbtree", "sr.add", []int{1}, true},
+	{"openbtree", "sr.get", []int{1}, false},
+	{"find", "reg.get", []int{1}, false}, {"find", "blob.get", []int{1}, false}, {"get", "reg.get", []int{1}, false}, {"get", "blob.get", []int{1}, false},
+	{"add", "reg.get", []int{1}, false}, {"add", "blob.get", []int{1}, false}, {"update", "blob.get", []int{1}, false}, {"remove", "reg.get", []int{1}, false},
+	{"close", "reg.close", []int{1}, false},
+	// backend outages: from its k-th call under this call on, every call to the backend fails (the failing work AND its undo)
+	{"rollback", "sr.*", []int{1}, false}, {"rollback", "reg.*", []int{1, 2}, false}, {"rollback", "blob.*", []int{1}, false}, {"rollback", "plog.*", []int{1}, false},
+	{"commit", "sr.*", []int{1, 2}, false}, {"commit", "reg.*", []int{1, 2, 3, 4}, false}, {"commit", "blob.*", []int{1, 2}, false}, {"commit", "tlog.*", []int{1, 3, 6, 9, 11}, false}, {"commit", "plog.*", []int{1}, false},
+	{"phase1", "sr.*", []int{1}, false}, {"phase1", "reg.*", []int{1, 2}, false}, {"phase1", "blob.*", []int{1}, false}, {"phase1", "tlog.*", []int{1, 3}, false},
+	{"phase2", "reg.*", []int{1}, false}, {"phase2", "tlog.*", []int{1}, false}, {"phase2", "plog.*", []int{1}, false},
+	{"newbtree", "sr.*", []int{1, 2}, false}, {"openbtree", "sr.*", []int{1}, false}, {"add", "reg.*", []int{1}, false}, {"get", "blob.*", []int{1}, false},
+}
+
+// failTokens expands the table into op tokens `op!name#k` / `op!+name#k`; quick keeps the first two ordinals of long lists except for commit's log calls
+func failTokens(thorough bool) (ender, other []string) {
+	for _, f := range failTable {
+		for i, k := range f.ks {
+			if !thorough && f.op != "commit" && i >= 2 && !strings.HasSuffix(f.name, ".*") {
+				break
+			}
+			toks := []string{fmt.Sprintf("%s!%s#%d", f.op, f.name, k)}
+			if f.after && (thorough || k == 1) {
+				toks = append(toks, fmt.Sprintf("%s!+%s#%d", f.op, f.name, k))
+			}
+			if f.op == "rollback" || f.op == "commit" {
+				ender = append(ender, toks...)
+			} else {
+				other = append(other, toks...)
+			}
+		}
+	}
+	return
+}
+
+var failPrefixes = [][]string{
+	{"begin"}, {"begin", "newbtree"}, {"begin", "newbtree", "add"}, {"begin", "openbtree"}, {"begin", "openbtree", "add"},
+	{"begin", "openbtree", "update"}, {"begin", "openbtree", "remove"}, {"begin", "openbtree", "get"},
+	{"begin", "newbtree", "add", "phase1"}, {"begin", "openbtree", "add", "phase1"}, {"begin", "openbtree", "update", "phase1"},
+	{"begin", "openbtree", "remove", "phase1"}, {"begin", "openbtree", "get", "phase1"},
+}
+
+// what a caller might try on a transaction that has ended: more store operations, then Commit / Rollback / Begin again
+var failSuffixes = [][]string{
+	{"add", "commit"}, {"commit", "rollback"}, {"rollback", "begin", "commit"}, {"find", "phase1", "phase2"},
+	{"newbtree", "add", "commit"}, {"openbtree", "update", "commit"}, {"begin", "openbtree", "add", "commit"}, {"phase2", "get", "rollback", "commit"},
+}
+
+func genFailures(cases *[]spec, seen map[string]bool, p *hx.Prng, o hx.RunOpts) {
+	cat := func(parts ...[]string) []string {
+		var q []string
+		for _, x := range parts {
+			q = append(q, x...)
+		}
+		return q
+	}
+	// directed: the failing-undo Rollback followed by more work and a Commit (the lifecycle hole this family is aimed at),
+	// a Commit failing in phase 1 / phase 2 / its log calls, a failing reader check, failing store-level calls
+	for _, c := range [][]string{
+		{"begin", "newbtree", "add", "rollback!sr.rem#1", "add", "commit"},
+		{"begin", "newbtree", "add", "rollback!+sr.rem#1", "newbtree", "add", "commit"},
+		{"begin", "openbtree", "update", "phase1", "rollback!blob.rem#1", "update", "commit"},
+		{"begin", "openbtree", "add", "phase1", "rollback!reg.rem#1", "phase2"},
+		{"begin", "openbtree", "remove", "phase1", "rollback!sr.upd#1", "commit", "begin"},
+		{"begin", "openbtree", "update", "phase1", "rollback!plog.rem#1", "phase2", "commit"},
+		{"begin", "openbtree", "add", "commit!blob.add#1", "add", "commit"},
+		{"begin", "openbtree", "update", "commit!reg.updnl#2", "update", "commit", "rollback", "begin"},
+		{"begin", "openbtree", "update", "commit!tlog.add#11", "find", "commit"},
+		{"begin", "openbtree", "get", "phase1!reg.get#1", "find", "commit"},
+		{"begin", "openbtree", "get", "commit!reg.get#1", "find", "commit"},
+		{"begin", "newbtree!sr.add#1", "newbtree", "add", "commit"},
+		{"begin", "openbtree", "find!reg.get#1", "add", "commit"},
+		{"begin", "openbtree", "update", "phase1", "phase2!reg.updnl#1", "rollback", "commit"},
+		{"begin", "openbtree", "close!reg.close#1", "add", "commit"},
+	} {
+		addSeq(cases, seen, c)
+	}
+	// pilots: every (prefix, failing call) with NO continuation, under every mode and initial condition. Whether the failure is
+	// reached depends on these alone; the continuations are added (expandReached) only where it was.
+	ender, other := failTokens(o.Thorough())
+	for _, pre := range failPrefixes {
+		for _, tok := range append(append([]string(nil), ender...), other...) {
+			addSeq(cases, seen, cat(pre, []string{tok}))
+		}
+	}
+}
+
+// expandReached: for every pilot in which the failure took effect, the same case followed by each continuation
+func expandReached(pilots []spec, results []caseResult, o hx.RunOpts) (out []spec) {
+	nSuf := 4
+	if o.Thorough() {
+		nSuf = len(failSuffixes)
+	}
+	n := 0
+	for i, c := range pilots {
+		reached := false
+		for _, h := range results[i].Hits {
+			if h == "case_with_failure" {
+				reached = true
+			}
+		}
+		if !reached || len(c.ops) == 0 || !strings.Contains(c.ops[len(c.ops)-1], "!") {
+			continue
+		}
+		n++
+		for j := 0; j < nSuf; j++ {
+			suf := failSuffixes[(n+j*3)%len(failSuffixes)]
+			out = append(out, spec{c.mode, c.init, append(append([]string(nil), c.ops...), suf...)})
+		}
+	}
+	return
+}
+
+// randomFailures: begin, open, a few store calls, maybe phase 1, a failing call, then 1..5 more calls (one of them may fail too);
+// mostly writers (most backend work is a writer's)
+func randomFailures(p *hx.Prng, o hx.RunOpts) (out []spec) {
+	ender, other := failTokens(true)
+	all := append(append([]string(nil), ender...), other...)
+	nRand := 6000
+	if o.Thorough() {
+		nRand = 60000
+	}
+	tail := []string{"commit", "commit", "rollback", "begin", "add", "find", "update", "remove", "get", "phase1", "phase2", "newbtree", "openbtree", "close"}
+	for i := 0; i < nRand*o.Scale; i++ {
+		q := []string{"begin", []string{"newbtree", "openbtree"}[p.Intn(2)]}
+		for n := p.Intn(3); n > 0; n-- {
+			q = append(q, []string{"add", "update", "remove", "get", "find"}[p.Intn(5)])
+		}
+		if p.Chance(1, 3) {
+			q = append(q, "phase1")
+		}
+		if p.Chance(3, 4) {
+			q = append(q, ender[p.Intn(len(ender))])
+		} else {
+			q = append(q, other[p.Intn(len(other))])
+		}
+		for n := 1 + p.Intn(5); n > 0; n-- {
+			if p.Chance(1, 8) {
+				q = append(q, all[p.Intn(len(all))])
+			} else {
+				q = append(q, tail[p.Intn(len(tail))])
+			}
+		}
+		m := "write"
+		if p.Chance(1, 4) {
+			m = modes[p.Intn(2)]
+		}
+		out = append(out, spec{m, inits[p.Intn(3)], q})
+	}
+	return
+}
+
 func run(o hx.RunOpts) error {
 	// exAll: every sequence up to this length (full alphabet); exBegin: every `begin`+suffix up to this total length (full
 	// alphabet); exOpenFull / exOpenCore: every `begin` (newbtree|openbtree) + suffix of this total length (full / core alphabet)
@@ -752,8 +1420,17 @@ func run(o hx.RunOpts) error {
 		"then what a separate later writer transaction sees (store listed, count). Alphabet %v. Enumeration: directed corpus first; EVERY sequence of length <= %d over the full alphabet; every sequence `begin`+suffix of total length <= %d over the full alphabet; "+
 		"every sequence `begin` (newbtree|openbtree) + suffix of total length %d over the full alphabet%s; plus %d seeded random sequences of length 6..9 starting with begin. Sequences in which no newbtree/openbtree follows a begin cannot reach the store and run under `absent` only. "+
 		"A sequence is cut right after a mutation that succeeds once a writer's Phase1Commit has done work (those continuations are outside the tie: coverage_gap). "+
-		"exhaustive=true refers to the stated lengths. distinct = canonical op-file hash; non-trivial = Begin succeeded and at least one further call other than Close ran while HasBegun.",
-		full, exAll, exBegin, exOpenFull, map[bool]string{true: fmt.Sprintf(" and of total length %d over the core alphabet %v", exOpenCore, core), false: ""}[exOpenCore > 0], nRandom)
+		"exhaustive=true refers to the stated lengths. distinct = canonical op-file hash; non-trivial = Begin succeeded and at least one further call other than Close ran while HasBegun. "+
+		"FAILING CALLS: a call written `op!name#k` (`op!+name#k`) runs with the k-th call of backend method `name` (StoreRepository sr.get/add/upd/rem, Registry reg.get/add/upd/updnl/rem/close, BlobStore blob.get/add/upd/rem, "+
+		"TransactionLog tlog.add/rem, priority log plog.add/rem) made under it failing before (after) it is performed, `op!sr.*#k` (reg.*, blob.*, tlog.*, plog.*) with that backend down from its k-th call under the call on (every later call to it fails too: the failing work AND the undo after it); the second word of the op line is where the failure took effect, read off the call stack at the failing backend call "+
+		"(work = the call's own work: phase1Commit / commitForReaderTransaction / phase2Commit / NewBtree / OpenBtree / the B-tree call / Close; work2 = phase2Commit under Commit; undo = Transaction.rollback; quiet = a site whose error the code drops; - = never reached). "+
+		"The model predicts result class, phaseDone, committed of the failing call and of every later call exactly; the write calls of a call in which a failure took effect and what is on disk afterwards are not predicted (printed `*`). "+
+		"Failing-call sequences: a directed corpus; every (13 prefixes: begin [newbtree|openbtree [add|update|remove|get [phase1]]]) x (every failing call of a table of %d: Rollback x 10 backend methods, Commit x 15 incl. each of its 13 log calls, Phase1Commit, Phase2Commit, NewBtree, OpenBtree, find/get/add/update/remove, Close) x (%d of 8 continuations that try more store operations and Commit/Rollback/Begin/Phase2 again); plus %d seeded random sequences with one or two failing calls. "+
+		"DIRECT ORACLE on the end of the transaction (independent of the model and of HasBegun()): once Rollback or Commit has been CALLED after a successful Begin, whatever it returned, HasBegun() must be false, every later call except Rollback/Close must be refused, no data write may be issued, "+
+		"and what a cold reader (fresh L1/L2 caches, fresh repository objects, separate transaction = another process) sees right after that call must equal what it sees at the end of the sequence; and when that call was Rollback the cold reader must see the initial content "+
+		"(not judged: leftovers of an undo the backend refused after a phase 1 that had written / of an earlier failed call — the commit protocol's subject; a created store whose removal was refused may stay, empty).",
+		full, exAll, exBegin, exOpenFull, map[bool]string{true: fmt.Sprintf(" and of total length %d over the core alphabet %v", exOpenCore, core), false: ""}[exOpenCore > 0], nRandom,
+		func() int { a, b := failTokens(o.Thorough()); return len(a) + len(b) }(), map[bool]int{false: 2, true: 8}[o.Thorough()], map[bool]int{false: 1200, true: 12000}[o.Thorough()]*o.Scale)
 	s := hx.NewSession(o, rule)
 	s.Rep.Exhaustive = true
 	s.Rep.CoverageGap = []string{"continuations after a store mutation that succeeds while phaseDone = 1 and the writer's phase 1 has already done work (accepted by the guards; observed on the real code: silently dropped changes, count corruption on Rollback, a later Find that panics) are not diffed with the model: the case is cut at that call"}
@@ -800,6 +1477,10 @@ func run(o hx.RunOpts) error {
 		addSeq(&cases, seen, q)
 	}
 
+	nPlain := len(cases)
+	genFailures(&cases, seen, p, o)
+	log.Printf("c14: %d plain cases, %d directed/pilot cases with failing calls", nPlain, len(cases)-nPlain)
+
 	if os.Getenv("VERIF_C14_SCRATCH") == "" {
 		if d, err := os.MkdirTemp("/dev/shm", "verif-c14-"); err == nil {
 			os.Setenv("VERIF_C14_SCRATCH", d)
@@ -811,16 +1492,27 @@ func run(o hx.RunOpts) error {
 		fmt.Sscan(v, &workers)
 	}
 	const batch = 40000
-	for lo := 0; lo < len(cases); lo += batch {
-		hi := lo + batch
-		if hi > len(cases) {
-			hi = len(cases)
+	runBatch := func(cases []spec) (all []caseResult) {
+		for lo := 0; lo < len(cases); lo += batch {
+			hi := lo + batch
+			if hi > len(cases) {
+				hi = len(cases)
+			}
+			results := runAll(cases[lo:hi], workers)
+			for i, c := range cases[lo:hi] {
+				emit(s, c, results[i])
+			}
+			all = append(all, results...)
 		}
-		results := runAll(cases[lo:hi], workers)
-		for i, c := range cases[lo:hi] {
-			emit(s, c, results[i])
-		}
+		return
 	}
+	results := runBatch(cases)
+	// second stage: continuations after the failing calls that were reached, and the random failing-call sequences
+	stage2 := expandReached(cases[nPlain:], results[nPlain:], o)
+	nExp := len(stage2)
+	stage2 = append(stage2, randomFailures(p, o)...)
+	log.Printf("c14: second stage: %d continuations of reached failures, %d random", nExp, len(stage2)-nExp)
+	runBatch(stage2)
 	return s.Finish()
 }
 
